@@ -98,7 +98,7 @@ package lpm
 // work stack is a local array or freshly allocated memory, never the iterator's own stack
 // slice (a LowerBound iterator may be traversed several times).
 //@ func (*Iterator).All
-//@   property C13 C01
+//@   property C13 C01 C04
 //@   flag nosafety
 //@   flag dyncall.yield=pure
 //@   ensures @iteration-writes-only-its-own-stack onlyFresh()
